@@ -165,6 +165,18 @@ let handler r =
                let* a1 = angle fops v w in
                let* a2 = angle fops w v in
                Ok (put_fl w; put_f a1; put_f a2))
+  | "rotdt" -> let alpha = num r in let dim = integer r in let ax = list r in
+      (* the library's own Determinant() and Trace() of one Rotation_Matrix *)
+      out_res (let* (d, t) = rotation_det_trace fops alpha (z_of_int dim) ax in Ok (put_f d; put_f t))
+  | "chaindt" -> let dim = integer r in let n = integer r in
+      (* Determinant() and Trace() of P = Identity_Matrix(dim) * R_1 * ... * R_n *)
+      if dim <> 2 && dim <> 3 then put_w "MODELERR bad_dim" else begin
+        let fs = List.init n (fun _ -> let a = num r in let ax = list r in (a, ax)) in
+        out_res (let* (d, t) = rot_chain_det_trace fops (z_of_int dim) fs in Ok (put_f d; put_f t))
+      end
+  | "matdt" -> let m = table r in
+      (* Determinant() then Trace() of an arbitrary rectangular matrix (ties the recursive Laplace model for every size) *)
+      out_res (let* d = mdet fops m in let* t = mtrace fops m in Ok (put_f d; put_f t))
   | "angle" ->
       out_res (let* a = rd_vec r in let* b = rd_vec r in let* x = angle fops a b in Ok (put_f x))
   | "cross" ->
